@@ -156,3 +156,28 @@ def file_line(a, node=None):
     f = a['file'].replace('/repo/', '')
     l = (node.get('l') if isinstance(node, dict) else None) or a.get('line')
     return '%s:%s' % (f, l)
+
+
+def reports_error(facts, stmts, depth=2):
+    """do these statements raise an error: a throw, executionContext.problem(..., eError, ...), or a call (up to `depth`
+    levels into repo callees) to a routine that does so on its straight-line path"""
+    for st in stmts:
+        for x in walk(st):
+            if x['k'] == 'Throw':
+                return True
+            if x['k'] in ('Call', 'MCall'):
+                n = x.get('n') or callee(x).split('::')[-1]
+                if n in ('problem', 'error', 'warn') and any(strip_casts(a) is not None and strip_casts(a).get('k') == 'Ref' and strip_casts(a).get('n') == 'eError' for a in x['args']):
+                    return True
+                if n in ('error',) and 'XPathProcessorImpl' in (x.get('cls') or ''):
+                    return True
+                if depth > 0 and x.get('usr'):
+                    a = facts.ast(x['usr'])
+                    if a is not None and a['file'].startswith('/repo/') and len(str(a['body'])) < 20000:
+                        body = a['body']
+                        top = body['c'] if body['k'] == 'Compound' else [body]
+                        # only statements executed unconditionally
+                        straight = [t for t in top if t['k'] not in ('If', 'While', 'For', 'Do', 'Switch')]
+                        if reports_error(facts, straight, depth - 1):
+                            return True
+    return False
